@@ -14,6 +14,7 @@ from liquid.builtin.expressions import Filter
 from liquid.builtin.expressions import KeywordArgument
 from liquid.builtin.expressions import PositionalArgument
 from liquid.builtin.expressions import StringLiteral
+from liquid.exceptions import TranslationValueError
 from liquid.filter import int_arg
 from liquid.messages import MESSAGES
 from liquid.messages import MessageText
